@@ -65,7 +65,7 @@ class SparseOracle:
     def groups(self):
         g = getattr(self.m, "groups_", None)
         d = self.sel_matrix().shape[0]
-        return [list(x) for x in g] if g is not None else [[i] for i in range(d)]
+        return [[int(v) for v in x] for x in g] if g is not None else [[i] for i in range(d)]
 
     # ---- post optimiser step: plant interesting rows, then snapshot what the optimiser left
     def post_step(self, world, opt, params):
